@@ -81,6 +81,8 @@ structure Solid1D (α : Type) where
   buf : Array (Row α)
   oob : Bool
   solEnd : Option Nat
+  /-- `sigma_new` of the last step -/
+  sg : α
   sigma : Array α
 
 structure Result1D (α : Type) where
@@ -290,7 +292,7 @@ nucleation step, `tNuc = dt * iEnd` -/
     else (s.buf, s.oob)
   let sg := (one / aget g.z (Nz - 1)) * simpsonA mIce g.z / (k.mass - k.mass_solute)
   { T := Tn, w := w, buf := buf, oob := oob,
-    solEnd := firstHit s.solEnd (decide (lit 9 1 ≤ sg)) i, sigma := s.sigma.push sg }
+    solEnd := firstHit s.solEnd (decide (lit 9 1 ≤ sg)) i, sg := sg, sigma := s.sigma.push sg }
 
 /-- `_run_1D` on the sampled shelf profile `shelf` (K) with `Nz` grid points;
 `old = true` uses the controlled-nucleation test of the current code -/
@@ -319,7 +321,7 @@ def run1DOn (p : SnowIn α) (Nz : Nat) (old : Bool) (shelf : List α) : Result1D
     else
       let NtSolid := g.NtExp - iEnd
       let sol := iterIdx (solidStep1D p g (saveStride NtSolid) iEnd tNuc) (shelf.drop iEnd) 0
-        { T := Ta, w := w0, buf := #[], oob := false, solEnd := none, sigma := #[] }
+        { T := Ta, w := w0, buf := #[], oob := false, solEnd := none, sg := zero, sigma := #[] }
       if sol.oob then
         { exc := some "IndexError", stage := "solidification-row", n := n, dt := g.dt,
           NtCoolEnd := some iEnd, NtSolEnd := none, stats := some st0, hist := none,
